@@ -367,7 +367,7 @@ func readerOutcome(ex *document.DocumentEx, err error) string {
 		names = append(names, n)
 	}
 	sort.Strings(names)
-	return fmt.Sprintf("err=%v %s %v", err != nil, s, names)
+	return fmt.Sprintf("err=%v pace=%v bac=%v %s %v", err != nil, ex.Session.PaceResult != nil, ex.Session.BacResult != nil, s, names)
 }
 
 // execReaderProgram runs ops (sequentially in the given order, or concurrently
